@@ -24,19 +24,26 @@ pub fn any_from_bits(b: Bits) -> Option<EntityAny> {
 /// only way to look inside a direct handle without a hook.
 pub fn dbits(d: EntityDirectAny) -> Bits {
     use std::hash::{Hash, Hasher};
+    // an identity for the handle's value derived from everything it feeds to `Hash` (equal
+    // handles hash equally; distinct handles feed distinct (key, version) data); robust against
+    // a change of how the fields are written
     struct Cap(u64);
     impl Hasher for Cap {
         fn finish(&self) -> u64 {
             self.0
         }
         fn write(&mut self, bytes: &[u8]) {
-            let mut b = [0u8; 8];
-            let n = bytes.len().min(8);
-            b[..n].copy_from_slice(&bytes[..n]);
-            self.0 = u64::from_ne_bytes(b);
+            for chunk in bytes.chunks(8) {
+                let mut b = [0u8; 8];
+                b[..chunk.len()].copy_from_slice(chunk);
+                self.0 = self.0.rotate_left(32) ^ u64::from_le_bytes(b);
+            }
         }
         fn write_u64(&mut self, i: u64) {
-            self.0 = i;
+            self.0 = self.0.rotate_left(32) ^ i;
+        }
+        fn write_u32(&mut self, i: u32) {
+            self.0 = self.0.rotate_left(32) ^ i as u64;
         }
     }
     let mut c = Cap(0);
